@@ -94,7 +94,7 @@ func gitExec(c *Ctx, op string) {
 		return
 	}
 	gitCmd(repo, "config", "core.quotepath", "off")
-	names := []string{"a", "b c", "d/e", "d/f g", "deep/er/est/x", ".hidden", "UPPER", "é", "bin/tool", "lib/a/empty", "lib/b/empty", "dup1", "dup2", "vendor/x/mod.txt", "vendor/y/mod.txt"}
+	names := []string{"a", "b c", "d/e", "d/f g", "deep/er/est/x", ".hidden", "UPPER", "é", "bin/tool", "lib/a/empty", "lib/b/empty", "dup1", "dup2", "vendor/x/mod.txt", "vendor/y/mod.txt", "mirror.git", "vendor/lib.git", "x.git/inner", ".gitignore", "sub/.gitkeep", "notgit.gitx"}
 	var commits []string
 	nCommits := 2 + int(g.Rand()%3)
 	for ci := 0; ci < nCommits; ci++ {
